@@ -38,6 +38,8 @@ CLAIMS = {
                 text='rcond between 1/(|A||inv A|) and 1/(|A||inv(A)e/n|) in the norm the statement prescribes (1-norm / inf-norm by transpose option, whatever the storage), info=n+1 iff rcond<eps with X still returned, pivot growth recomputed from the returned factors; on the C07 enumeration and a graded family with prescribed singular values.', ref='5 C12'),
     'C13': dict(cat='exploration', engine='mcexpert', tech='bounded-exhaustive enumeration + graded family against quad-precision exact solutions',
                 text='Returned berr equals the recomputed componentwise backward error of the returned X (on the equilibrated system), is O((n+1)eps) for cond<1/sqrt(eps); 40*ferr dominates the true relative error against the quad-precision exact solution of the original system; all trans/equed/precision combinations.', ref='5 C13'),
+    'C15': dict(cat='exploration', engine='mcargs', tech='bounded-exhaustive enumeration of every single and every ordered pair of documented-precondition violations on legal baselines, with bytewise side-effect and heap-balance oracles',
+                text='8 routines x 20 legal baseline calls (real factors) x all 1258 single violations and 99218 ordered pairs, 4 precisions: info = -i and one xerbla_ call for the documented position of the first offender, every object reachable from the arguments bytewise unchanged, no allocation retained; crashes attributed per case.', ref='5 C15'),
     'C09': dict(cat='exploration', tech='bounded-exhaustive enumeration; the statement implemented literally as a checker on every returned factorization',
                 text='wellformed(L,U,perm_r,perm_c) checks bijections, supernode partition/maps, row-list shape, U placement, extent disjointness, nnz fields and dependency order on every '
                      'successful factorization of the C02 enumeration (first-time; refactored ones in C08).', ref='5 C09'),
@@ -81,6 +83,7 @@ def main():
             {'name': 'mcsched', 'path': 'engines/mcsched', 'serves_properties': ['C01', 'C02', 'C03', 'C04', 'C05', 'C09'],
              'kind_free_text': 'Engine S: stateless preemption-bounded DFS over thread interleavings of the real factorization (baton scheduler over renamed pthread calls + source hooks), monitors and end-of-execution oracles in every execution, crash-resumable'},
             {'name': 'mcexpert', 'path': 'engines/mcexpert', 'serves_properties': ['C07', 'C11', 'C12', 'C13'], 'kind_free_text': 'Engine Q: expert-driver enumeration (trans x storage x fact x equed x scalings) against long-double / quad references'},
+            {'name': 'mcargs', 'path': 'engines/mcargs', 'serves_properties': ['C15'], 'kind_free_text': 'Engine Q: illegal-argument enumeration (singles and ordered pairs) with side-effect / leak oracles'},
             {'name': 'mcseq', 'path': 'engines/mcseq', 'serves_properties': ['C01', 'C02', 'C05', 'C06', 'C09', 'C16'],
              'kind_free_text': 'Engine Q: bounded-exhaustive enumeration of inputs, options, call histories and faults of the sequential API against long-double reference models, crash-isolated'},
         ],
